@@ -656,6 +656,7 @@ pub fn inject(p: &mut Program, which: usize, u: &mut Unstructured) -> bool {
                                         pre: Prelude {
                                             doc: vec![],
                                             attrs: vec![AttrM::new("oneway", &[])],
+                                            docm: None,
                                         },
                                         idempotent: false,
                                         name: "op".into(),
